@@ -25,6 +25,8 @@ pub(crate) use page_manager::{
     AllocationPolicy, FILE_FORMAT_VERSION3, PageAllocator, PageResolver, ShrinkPolicy,
     TransactionalMemory, xxh3_checksum,
 };
+#[cfg(redb_verif)]
+pub(crate) use buddy_allocator::BuddyAllocator;
 pub use savepoint::Savepoint;
 pub(crate) use savepoint::SerializedSavepoint;
 
